@@ -151,7 +151,7 @@ def split_known(findings, prop):
 
 
 def write_replay(prop, f, extra=None):
-    d = os.path.join(VERIF, "replay", prop)
+    d = os.path.join(os.environ.get("VSG_VERIF_SCRATCH") or VERIF, "replay", prop)
     os.makedirs(d, exist_ok=True)
     body = dict(f)
     if extra:
